@@ -28,7 +28,9 @@ META = {
     'wall_cap': {'quick': 600, 'thorough': 3000},
     'rule': ('seeded edit histories (<=40 ops; lengths 1-5 get half of the runs) over a pool of <=24 '
              'nodes; non-trivial iff >=2 edits changed the tree and the final tree has depth>=2 or used a '
-             'fragment; distinct = digest of the executed op list; distinct_states = distinct model-tree digests'),
+             'fragment; distinct = digest of the executed op list; distinct_states = distinct model-tree digests. Plus a bounded '
+             'EXHAUSTIVE part: every enabled sequence of 2 (quick) / 3 (thorough; 4 below 48 seeded two-op prefixes) concrete edit '
+             'operations over the pool {root, 2 elements, 2 equal text nodes, 1 two-child fragment}, counted under dense_sweep_cases'),
     'components': {'real': ['plasTeX.DOM (Node, Element, Text, DocumentFragment, NamedNodeMap, Document)'],
                    'stub': ['none: pure in-memory data structure; the caller is the simulator']},
     'assumptions': ['list-of-lists reference model (sim/props/c06.py) is trusted',
@@ -37,8 +39,9 @@ META = {
                     'no fault space exists for this property (sequential refinement only)'],
     'probe_names': ['frag_into_frag', 'frag_insert_middle', 'empty_frag', 'equal_text_siblings',
                     'reinsertion_of_removed', 'normalize_merged', 'clone_deep', 'clone_shallow', 'attr_frag',
-                    'cmp_deep_common_ancestor', 'setitem_frag', 'detached_target'],
+                    'cmp_deep_common_ancestor', 'setitem_frag', 'detached_target', 'dfs_exhaustive'],
     'shrink_budget': 500,
+    'enum_batch': {'quick': 4, 'thorough': 1},
 }
 
 TAGS = ['a', 'b', 'c']
@@ -629,6 +632,116 @@ class World(object):
         return out
 
 
+# --------------------------------------------------------------------------
+# bounded exhaustive part ("all operation sequences up to length N over a small node pool"): a DFS record
+# {'op': 'DFS', 'depth': N} enumerates, below the prefix of ordinary ops that precedes it, EVERY sequence of
+# N concrete edit operations that is enabled in the state reached, checking all invariants after every op.
+
+DFS_INIT = [{'op': 'NEW_ELEM', 'tag': 'a'}, {'op': 'NEW_ELEM', 'tag': 'b'}, {'op': 'NEW_TEXT', 'text': 'x'},
+            {'op': 'NEW_TEXT', 'text': 'x'}, {'op': 'NEW_FRAG', 'kids': [['e', 'c'], ['t', 'y']]}]
+
+
+def enabled_ops(w):
+    out = []
+    for o in ('APPEND', 'INSERT', 'EXTEND'):
+        for ti, t in enumerate(w.targets(True)):
+            av = w.args(t)
+            n = len(t.children)
+            if o == 'APPEND':
+                out += [{'op': o, 't': ti, 'a': ai, 'i': 0} for ai in range(len(av))]
+            elif o == 'INSERT':
+                out += [{'op': o, 't': ti, 'a': ai, 'i': i} for ai in range(len(av)) for i in range(n + 1)]
+            else:
+                out.append({'op': o, 't': ti, 'args': []})
+                out += [{'op': o, 't': ti, 'args': [ai]} for ai in range(len(av))]
+                # two arguments: the second index is taken among the remaining candidates
+                out += [{'op': o, 't': ti, 'args': [ai, bi]} for ai in range(len(av)) for bi in range(ai, len(av) - 1)]
+    for ti, t in enumerate(w.targets(False)):
+        av = w.args(t)
+        n = len(t.children)
+        if t.kind == 'e':
+            for o in ('INSERT_BEFORE', 'INSERT_AFTER', 'REPLACE', 'SETITEM'):
+                out += [{'op': o, 't': ti, 'a': ai, 'i': i} for ai in range(len(av)) for i in range(n)]
+            out += [{'op': 'REMOVE', 't': ti, 'a': 0, 'i': i} for i in range(n)]
+            out += [{'op': 'POP', 't': ti, 'a': 0, 'i': i, 'neg': neg} for i in range(n) for neg in (False, True)]
+            frags = [m for m in av if m.kind == 'f']
+            out += [{'op': 'SETATTR', 't': ti, 'a': ai, 'key': 'k1'} for ai in range(len(frags))]
+            out.append({'op': 'NORMALIZE', 't': ti, 'a': 0, 'i': 0})
+            out += [{'op': 'CLONE', 't': ti, 'deep': d} for d in (True, False)]
+    return out
+
+
+def _replay(seed, ops):
+    w = World()
+    w._removed_once = []
+    for k, op in enumerate(ops):
+        w.apply(op)
+    return w
+
+
+def run_dfs(record, prefix, depth, res):
+    """-> violation dict or None; counts executed sequences in res['sub_evaluations']."""
+    seed = record.get('seed')
+    pairs = [(a, b) for a in range(7) for b in range(7) if a != b][:12]
+    count = [0]
+    states = set()
+
+    def step(ops, d):
+        w = _replay(seed, ops)
+        for op in enabled_ops(w):
+            seq = ops + [op]
+            w2 = _replay(seed, ops)
+            try:
+                w2.apply(op)
+                w2.check(pairs)
+            except Violation as v:
+                return {'sig': v.sig, 'detail': dict(v.detail, sequence=seq[len(prefix):], prefix=prefix)}
+            except Exception as e:
+                import traceback
+                tb = traceback.extract_tb(e.__traceback__)
+                if tb and '/sim/' in tb[-1].filename:
+                    raise
+                site = '%s:%s' % (tb[-1].filename.split('/')[-1], tb[-1].name) if tb else '?'
+                return {'sig': 'C06|raise|%s|%s|%s' % (op['op'], type(e).__name__, site),
+                        'detail': {'sequence': seq[len(prefix):], 'prefix': prefix, 'exception': repr(e)}}
+            states.add(w2.states[-1])
+            if d + 1 < depth:
+                v = step(seq, d + 1)
+                if v:
+                    return v
+            else:
+                count[0] += 1
+        return None
+
+    v = step(list(prefix), 0)
+    res['sub_evaluations'] = res.get('sub_evaluations', 0) + count[0]
+    res['sub_distinct'] = res.get('sub_distinct', 0) + count[0]     # every enumerated sequence is distinct by construction
+    res['states'] = list(set(res['states']) | states)
+    return v
+
+
+def enumerate_cases(base_seed, tier):
+    """One DFS record per enabled first operation (so that the 16 workers share the tree)."""
+    depth = 2 if tier == 'quick' else 3
+    w = _replay(0, DFS_INIT)
+    out = []
+    firsts = enabled_ops(w)
+    for k, first in enumerate(firsts):
+        out.append({'property': PID, 'seed': core.h64('C06-dfs', k), 'swarm': {'pairs': 6},
+                    'ops': DFS_INIT + [first, {'op': 'DFS', 'depth': depth - 1}]})
+    if tier == 'thorough':
+        # one level deeper below a seeded sample of two-op prefixes (length 4 in all)
+        import random
+        r = random.Random(core.h64('C06-dfs4', base_seed))
+        for k in range(48):
+            first = r.choice(firsts)
+            w1 = _replay(0, DFS_INIT + [first])
+            second = r.choice(enabled_ops(w1))
+            out.append({'property': PID, 'seed': core.h64('C06-dfs4', base_seed, k), 'swarm': {'pairs': 6},
+                        'ops': DFS_INIT + [first, second, {'op': 'DFS', 'depth': 2}]})
+    return out
+
+
 def execute(record):
     res = core.empty_result()
     w = World()
@@ -638,6 +751,10 @@ def execute(record):
     viol = None
     executed = 0
     for k, op in enumerate(record['ops']):
+        if op.get('op') == 'DFS':
+            viol = run_dfs(record, [o for o in record['ops'][:k] if o.get('op') != 'DFS'], op.get('depth', 1), res)
+            w.info['dfs_exhaustive'] = 1
+            break
         try:
             w.apply(op)
             pr = core.h64(record.get('seed'), k)       # pair choice: pure function of (seed, step)
@@ -660,7 +777,7 @@ def execute(record):
     if viol:
         res['violations'].append(viol)
     res['probes'] = dict((k, 1) for k in w.info)
-    res['states'] = list(set(w.states))
+    res['states'] = list(set(w.states) | set(res['states']))
     res['steps'] = executed
 
     def depth(m):
